@@ -67,7 +67,7 @@ PROPS['C13']={
 PROPS['C15']={
  'bounds_statement':'in_toto_verify from MIR with the recursive call executed for real (depth 2): sub-layout filed under an authorized / unauthorized key, 1-2 sub-layout signatures with free validity, expired or not, inner links present/absent in the dedicated sub-directory with free validity, decoys in the parent directory; summary compared field by field; and a step with two functionaries filing the same sub-layout, each copy checked against its own sub-directory.',
  'assumptions':PIPE_ASSUME,
- 'obligations':[{'name':'sublayout','module':'harness.C15','cls':'Sublayout','quick':{'inner_steps':2},'thorough':{'inner_steps':3}},
+ 'obligations':[{'name':'sublayout','module':'harness.C15','cls':'Sublayout','quick':{'inner_steps':3},'thorough':{'inner_steps':3}},
                 {'name':'two_functionaries','module':'harness.C15','cls':'SublayoutTwoFunctionaries','quick':{},'thorough':{}}]}
 
 PROPS['C08']={
@@ -75,6 +75,7 @@ PROPS['C08']={
  'assumptions':PIPE_ASSUME+['the inspection subprocess and the files it touches are outside the claim; the stub returns what runlib documents: Err or a link with Some(exit status)'],
  'obligations':[{'name':'inspections','module':'harness.C08','cls':'Inspections','quick':{'ninsp':1},'thorough':{'ninsp':2}},
                 {'name':'inspections_after_two_steps','module':'harness.C08','cls':'Inspections','quick':{'ninsp':1,'two_steps':True},'thorough':{'ninsp':2,'two_steps':True}},
+                {'name':'inspections_after_a_failed_verification','module':'harness.C08','cls':'Inspections','quick':{'ninsp':1,'history':True},'thorough':{'ninsp':1,'history':True}},
                 {'name':'sublayout_inspection','module':'harness.C08','cls':'SublayoutInspection','quick':{},'thorough':{}}]}
 
 UNIT_ASSUME=['std/dependency calls replaced by the listed models (coverage.trusted_base); every run replays sampled paths natively against the real crate and compares outcomes',
